@@ -26,6 +26,7 @@ for d in seeded/*/; do
   id=$(basename "$d"); prop=${id%%-*}
   patch="$d/patch.diff"; [ -f "$d/patch.rebased.diff" ] && patch="$d/patch.rebased.diff"
   [ "$id" = C03-A ] && prop=C08   # caught by C08 only (DESIGN.md section 15)
+  grep -q '"retired"' "$d/meta.json" 2>/dev/null && { echo "$patch $prop :: RETIRED (see meta.json)" >> "$out"; continue; }
   run "$patch" "$prop" || { echo "NOT-CAUGHT $patch" >> "$out"; rc=1; }
 done
 echo "DONE rc=$rc" >> "$out"
